@@ -190,6 +190,9 @@ class BVV:
     @normalize_types
     @compare_bits
     def __lshift__(self, o):
+        if o.value >= self.bits:
+            # everything is shifted out; do not materialize a huge Python integer
+            return BVV(0, self.bits)
         return BVV(self.value << o.value, self.bits)
 
     @normalize_types
@@ -226,12 +229,15 @@ class BVV:
     @normalize_types
     @compare_bits
     def __rlshift__(self, o):
-        return BVV(o.value << self.signed, self.bits)
+        if self.value >= self.bits:
+            return BVV(0, self.bits)
+        return BVV(o.value << self.value, self.bits)
 
     @normalize_types
     @compare_bits
     def __rrshift__(self, o):
-        return BVV(o.signed >> self.signed, self.bits)
+        # the shift amount is unsigned; only the shifted value is interpreted as signed
+        return BVV(o.signed >> self.value, self.bits)
 
     #
     # Boolean stuff
